@@ -111,12 +111,14 @@ func handleReq(kind string, f []string, home string) string {
 func implLex(src string) string {
 	l := lexer.New(src)
 	var parts []string
+	var toks []token.Token
 	limit := len(src) + 3
 	for i := 0; ; i++ {
 		if i > limit {
 			return "LOOP " + strings.Join(parts, ",")
 		}
 		t := l.NextToken()
+		toks = append(toks, t)
 		parts = append(parts, fmt.Sprintf("%s:%s:%d:%d:%d:%d", ttName(t.Type), hxTok(t.Literal), t.Pos.StartLine, t.Pos.StartCol, t.Pos.EndLine, t.Pos.EndCol))
 		if t.Type == token.EOF {
 			break
@@ -126,7 +128,43 @@ func implLex(src string) string {
 	if l.IsInsideCode() {
 		inside = "1"
 	}
-	return "TOKS " + strings.Join(parts, ",") + " inside=" + inside
+	return "TOKS " + strings.Join(parts, ",") + " inside=" + inside + " cover=" + coverOf(src, toks)
+}
+
+// coverOf: for every byte of the source, the indices of the (non-EOF) tokens whose
+// Position.Contains (the real one) accepts the byte's line and column; "-" = none,
+// several indices are joined by '+'; bytes are separated by '.'
+func coverOf(src string, toks []token.Token) string {
+	var b strings.Builder
+	l, c := uint(0), uint(0)
+	for i := 0; i < len(src); i++ {
+		if i > 0 {
+			b.WriteByte('.')
+		}
+		n := 0
+		for k, t := range toks {
+			if t.Type == token.EOF {
+				continue
+			}
+			if t.Pos.Contains(l, c) {
+				if n > 0 {
+					b.WriteByte('+')
+				}
+				b.WriteString(strconv.Itoa(k))
+				n++
+			}
+		}
+		if n == 0 {
+			b.WriteByte('-')
+		}
+		if src[i] == '\n' {
+			l++
+			c = 0
+		} else {
+			c++
+		}
+	}
+	return b.String()
 }
 
 // the Lean driver prints an empty literal as the empty string
